@@ -1,4 +1,7 @@
 import EinxModel.Proofs.Compile
+import EinxModel.Proofs.CompileCorrect
+import EinxModel.Proofs.CompileOrder
+import EinxModel.Proofs.CompileClosed
 import EinxModel.Extracted.Compile
 /-!
 C04 — generated source is a faithful, self-contained compilation of the traced graph.
@@ -11,6 +14,17 @@ is the one the driver executes (kind `compile`); `Extracted.compile*` is regener
 * `fuse_sound`                    – sharing names between variables under the interference condition `fuseSafe`
                                     (computed by the driver for every compiled graph) preserves trace and result.
 * `value_computed_once_*`         – obligation over the extracted usage switches (D6) with a decided witness.
+* `compile_correct_wf`            – universal: for every `Graph.WF` graph (decidable) on which `compile` succeeds, executing the
+                                    emitted statements = `evalGraph` (event trace and result); nested graphs and in-place nodes
+                                    included; no per-graph premise.  `_wf_fused`: lifted through the generator's name groups under
+                                    `fuseSafe` (the one premise that is still checked per graph).
+* `compile_correct`               – the simulation for every context and traversal, under `matched` and `liveIn program = []`
+                                    (also the terms of all cached values); `_flat`: no premise without nested graphs; `_compiled`:
+                                    for `compile`; `_fused`: through any `fuseSafe` renaming (`fuse_sound`).
+* `emit_closed`, `compile_closed` – `liveIn program = []` from `noSelfRef` / from `Graph.WF`.
+* `visitOrder_wellBracketed`, `visitOrder_noSelfRef`, `visitOrder_nodup`, `emit_once_wf` – the traversal premises (`matched`,
+                                    `noSelfRef`, `Nodup`) hold for every graph / every `Graph.WF` graph.
+  Helper lemmas: `Proofs/CompileCorrect.lean`, `Proofs/CompileOrder.lean`, `Proofs/CompileClosed.lean`.
 -/
 namespace Einx.Compile
 
@@ -171,6 +185,285 @@ theorem fuse_entry (ρ : Nat → Nat) (l : List Stmt) (env : Env) (hentry : entr
   · rw [h]
   · exact absurd hwρ h
 
+/-! ### `compile_correct`: executing the emitted statements = evaluating the graph -/
+
+/-- **compile_correct_flat** (graphs without nested sub-graphs, statements as emitted, before name sharing).
+For *every* context `c` (graph, usage counts, scopes, switches) and *every* traversal `order` that consists of
+applications only (no `enter`/`exit` of a nested graph: `order.all Visit.isApp`, decidable): if the generator succeeds
+on it (`emitAll c order {} = .ok st`), then the node-by-node reference evaluation `evalGraph` along the same order
+succeeds too, and executing the emitted statements from the entry environment produces
+  * the same event trace (calls of opaque callables, in-place calls, item updates, asserts, in order),
+  * the same result, and
+  * for every value `x` (in particular the compiled object `g.top`), the expression the generator has for `x`, read in
+    the final environment, is the term the reference memoised for `x`.
+In-place calls and item updates are covered (no side condition).  No well-formedness premise on the graph is needed:
+success of `emitAll` is the only hypothesis. -/
+theorem compile_correct_flat (c : Ctx) (order : List Visit) (st : GState)
+    (hflat : order.all Visit.isApp = true) (h : emitAll c order {} = .ok st) :
+    ∃ r, evalGraph c.g c.cfg.unaryParens order = .ok r ∧
+      r.trace = (execBlock { env := unbound } st.program).trace ∧
+      r.ret = (execBlock { env := unbound } st.program).ret ∧
+      ∀ x, convTop r.vals x = (convTop st.cache x).map (E.subst (execBlock { env := unbound } st.program).env) := by
+  obtain ⟨new, r, hp, href, hsim⟩ := emitAll_sim_flat c order hflat {} {} { env := unbound } Sim.init st h
+  have hp' : st.program = new := by simpa [GState.program] using hp
+  rw [hp']
+  refine ⟨r, href, hsim.trace, hsim.ret, ?_⟩
+  intro x
+  rw [hsim.vals, convTop_mapσ]
+
+/-- **compile_correct** (all graphs, nested sub-graphs included; statements as emitted, before name sharing).
+For *every* context `c` and *every* traversal `order` in which each `exit g` is preceded by an `enter g` (`matched`,
+decidable; proved for every traversal of the generator in `visitOrder_matched`): if the generator succeeds
+(`emitAll c order {} = .ok st`) and the emitted program is closed — no variable is read before a statement has bound it
+(`liveIn st.program = []`, decidable on the output; it excludes reading the function variable of a nested graph inside
+its own body, i.e. a graph that contains itself) — then `evalGraph` succeeds along the same order, and executing the
+emitted statements from the entry environment yields the same event trace and the same result; moreover every cached
+expression whose variables are bound reads, in the final environment, as the term the reference memoised.
+In-place calls and item updates are covered without a side condition (events carry terms; an aliased in-place result is
+the term of the aliased operand on both sides).  What remains per graph: the decidable premise `liveIn st.program = []`. -/
+theorem compile_correct (c : Ctx) (order : List Visit) (st : GState)
+    (h : emitAll c order {} = .ok st) (hm : matched order [] = true) (hclosed : liveIn st.program = []) :
+    ∃ r, evalGraph c.g c.cfg.unaryParens order = .ok r ∧
+      r.trace = (execBlock { env := unbound } st.program).trace ∧
+      r.ret = (execBlock { env := unbound } st.program).ret ∧
+      ∀ x e, convTop st.cache x = .ok e → (∀ v ∈ e.vars, v ∈ outsOf st.program) →
+        convTop r.vals x = .ok (e.subst (execBlock { env := unbound } st.program).env) := by
+  obtain ⟨new, r, σ, en, hp, href, hinv⟩ := emitAll_inv c order [] unbound {} st {} { env := unbound } Inv.init hm h (by
+    intro newAll hp v hv
+    have hp' : st.program = newAll := by simpa [GState.program] using hp
+    rw [← hp', hclosed] at hv
+    simp at hv)
+  have hp' : st.program = new := by simpa [GState.program] using hp
+  rw [← hp'] at hinv
+  refine ⟨r, href, hinv.sim.trace, hinv.sim.ret, ?_⟩
+  intro x e hx hv
+  rw [hinv.sim.vals, convTop_mapσ, hx]
+  simp only [Except.map, Except.ok.injEq]
+  exact E.subst_congr _ _ e (fun v hv' => (hinv.agree v (hv v hv')).1)
+
+/-- **compile_correct_compiled**: the check the driver performs per graph (`ref_ok`, `same_trace`, `same_ret` of
+`Driver/Compile.lean`), as a theorem about `compile` itself: for every graph and all switches, if `compile` succeeds and
+the emitted program is closed (`liveIn`, decidable), then the reference evaluation along the generator's traversal
+succeeds and has the same event trace and result as the execution of the emitted statements.  (`matched` is discharged by
+`visitOrder_matched`; the statement that binds the compiled object under `bindResult` is pure.) -/
+theorem compile_correct_compiled (cfg : UCfg) (fc : FCfg) (g : Graph) (comp : Compiled)
+    (h : compile cfg fc g = .ok comp) (hclosed : liveIn comp.st.program = []) :
+    ∃ r, evalGraph g cfg.unaryParens comp.order = .ok r ∧
+      r.trace = (execBlock { env := unbound } comp.st.program).trace ∧
+      r.ret = (execBlock { env := unbound } comp.st.program).ret := by
+  unfold compile at h
+  simp only [bind, Except.bind] at h
+  cases hs : getScopes g g.fuel with
+  | error err => simp [hs] at h
+  | ok scopes =>
+  simp only [hs] at h
+  cases ho : visitOrder g with
+  | error err => simp [ho] at h
+  | ok order =>
+  simp only [ho] at h
+  cases he : emitAll { g := g, cfg := cfg, counts := (usageRec g cfg g.fuel g.top {}).counts, scopes := scopes } order {} with
+  | error err => simp [he] at h
+  | ok st =>
+  simp only [he] at h
+  cases hc : convTop st.cache g.top with
+  | error err => simp [hc] at h
+  | ok obj =>
+  simp only [hc] at h
+  have hm := visitOrder_matched g order ho
+  have key : ∀ st' : GState, (st' = st ∨ ∃ v e, st'.program = st.program ++ [.assign v e false]) →
+      liveIn st'.program = [] →
+      ∃ r, evalGraph g cfg.unaryParens order = .ok r ∧
+        r.trace = (execBlock { env := unbound } st'.program).trace ∧
+        r.ret = (execBlock { env := unbound } st'.program).ret := by
+    intro st' hst hcl
+    rcases hst with rfl | ⟨v, e, hp⟩
+    · obtain ⟨r, h1, h2, h3, _⟩ := compile_correct _ order st' he hm hcl
+      exact ⟨r, h1, h2, h3⟩
+    · have hcl' : liveIn st.program = [] := by
+        apply List.eq_nil_iff_forall_not_mem.2
+        intro w hw
+        have := liveIn_append_left st.program [.assign v e false] w hw
+        rw [← hp, hcl] at this
+        simp at this
+      obtain ⟨r, h1, h2, h3, _⟩ := compile_correct _ order st he hm hcl'
+      refine ⟨r, h1, ?_, ?_⟩
+      · rw [h2, hp, execBlock_append]; rfl
+      · rw [h3, hp, execBlock_append]; rfl
+  have fin : ∀ (st' : GState) (cond : Prop) [Decidable cond] (mk : Compiled),
+      mk.st = st' → mk.order = order →
+      (st' = st ∨ ∃ v e, st'.program = st.program ++ [.assign v e false]) →
+      (if cond then (throw "RecursionError: Block.to_code" : Except String Unit) >>= fun _ => pure mk else pure mk) = .ok comp →
+      ∃ r, evalGraph g cfg.unaryParens comp.order = .ok r ∧
+        r.trace = (execBlock { env := unbound } comp.st.program).trace ∧
+        r.ret = (execBlock { env := unbound } comp.st.program).ret := by
+    intro st' cond _ mk h1 h2 h3 h4
+    split at h4
+    · simp [throw, throwThe, MonadExceptOf.throw, bind, Except.bind] at h4
+    · simp only [pure, Except.pure, Except.ok.injEq] at h4
+      subst h4
+      rw [h2]
+      rw [h1] at hclosed ⊢
+      exact key st' h3 hclosed
+  split at h
+  · exact fin _ _ _ rfl rfl (Or.inl rfl) h
+  · cases hb : fc.bindResult with
+    | false =>
+      simp only [hb, Bool.false_eq_true, if_false] at h
+      exact fin _ _ _ rfl rfl (Or.inl rfl) h
+    | true =>
+      simp only [hb, if_true] at h
+      refine fin _ _ _ rfl rfl (Or.inr ⟨st.vars.length, obj, ?_⟩) h
+      rw [program_push]
+      rfl
+
+/-- **compile_correct_fused**: `compile_correct` lifted through name sharing with `fuse_sound`.  For every renaming `ρ`
+of variables (in particular the one computed by the generator's `fuse` loop, `fun v => grp[v]?.getD v`) that satisfies
+the interference condition `fuseSafe ρ st.program` (decidable; checked per graph by the driver — that the `fuse` loop
+always produces such a `ρ` is *not* proved here), the renamed statements, executed from *any* entry environment, have the
+event trace and the result of the reference evaluation of the graph.  (Statements in emission order; the text hoists
+imports to the top of the root block.) -/
+theorem compile_correct_fused (c : Ctx) (order : List Visit) (st : GState)
+    (h : emitAll c order {} = .ok st) (hm : matched order [] = true) (hclosed : liveIn st.program = [])
+    (ρ : Nat → Nat) (hsafe : fuseSafe ρ st.program = true) (env' : Env) :
+    ∃ r, evalGraph c.g c.cfg.unaryParens order = .ok r ∧
+      r.trace = (execBlock { env := env' } (st.program.map (Stmt.rename ρ))).trace ∧
+      r.ret = (execBlock { env := env' } (st.program.map (Stmt.rename ρ))).ret := by
+  obtain ⟨r, h1, h2, h3, _⟩ := compile_correct c order st h hm hclosed
+  obtain ⟨f1, f2⟩ := fuse_sound ρ st.program { env := unbound } { env := env' } hsafe
+    (by intro v hv; rw [hclosed] at hv; simp at hv) rfl rfl
+  exact ⟨r, h1, by rw [h2, f1], by rw [h3, f2]⟩
+
+/-- `compile_correct_fused` for `compile` itself, with the name groups `compile` computed. -/
+theorem compile_correct_compiled_fused (cfg : UCfg) (fc : FCfg) (g : Graph) (comp : Compiled)
+    (h : compile cfg fc g = .ok comp) (hclosed : liveIn comp.st.program = [])
+    (hsafe : fuseSafe (fun v => comp.grp[v]?.getD v) comp.st.program = true) (env' : Env) :
+    ∃ r, evalGraph g cfg.unaryParens comp.order = .ok r ∧
+      r.trace = (execBlock { env := env' } (comp.st.program.map (Stmt.rename (fun v => comp.grp[v]?.getD v)))).trace ∧
+      r.ret = (execBlock { env := env' } (comp.st.program.map (Stmt.rename (fun v => comp.grp[v]?.getD v)))).ret := by
+  obtain ⟨r, h1, h2, h3⟩ := compile_correct_compiled cfg fc g comp h hclosed
+  obtain ⟨f1, f2⟩ := fuse_sound (fun v => comp.grp[v]?.getD v) comp.st.program { env := unbound } { env := env' } hsafe
+    (by intro v hv; rw [hclosed] at hv; simp at hv) rfl rfl
+  exact ⟨r, h1, by rw [h2, f1], by rw [h3, f2]⟩
+
+/-- The traversal of the generator is well bracketed for every graph (premise `matched` of `compile_correct`). -/
+theorem visitOrder_wellBracketed (g : Graph) (order : List Visit) (h : visitOrder g = .ok order) :
+    matched order [] = true := visitOrder_matched g order h
+
+/-- **visitOrder_nodup**: the premise `nodup_order` that the driver checks per graph holds for *every* well-formed graph.
+`Graph.WF` (decidable, `Compile/Sem.lean`): every tracer is among the registered outputs of its origin; applications are
+in topological order (every tracer that an operand leads to — directly, or as the output of a nested-graph operand — has
+an earlier origin; this is the order in which `graphcap` numbers applications); outputs of nested graphs mention no graph.
+Without the topological condition the statement is false: a nested graph whose output is the tracer that consumes the
+graph is traversed twice by a successful `visit`. -/
+theorem visitOrder_nodup (g : Graph) (hwf : g.WF = true) (order : List Visit) (h : visitOrder g = .ok order) :
+    order.Nodup := visitOrder_nodup_of_wf g hwf order h
+
+/-- `emit_once` for the generator's own traversal of a well-formed graph (no per-graph `Nodup` premise left). -/
+theorem emit_once_wf (c : Ctx) (hwf : c.g.WF = true) (order : List Visit) (ho : visitOrder c.g = .ok order)
+    (st' : GState) (h : emitAll c order {} = .ok st') (i : Nat) (a : App) (ha : c.g.apps[i]? = some a)
+    (hk : a.isStmtKind c.g = true) :
+    st'.srcs.count i = if Visit.app i ∈ order then 1 else 0 := by
+  have := emit_once c order {} st' h (visitOrder_nodup c.g hwf order ho) i a ha hk
+  simpa [GState.srcs] using this
+
+/-! ### Discharging the premises from the graph -/
+
+/-- **emit_closed**: the premise `liveIn st.program = []` of `compile_correct` follows from a premise on the *input*: along
+the traversal, no application mentions a nested graph that is still open and no graph output mentions an open graph
+(`noSelfRef`, decidable, `Compile/Sem.lean`).  Then no statement reads a variable before it is bound. -/
+theorem emit_closed (c : Ctx) (order : List Visit) (st : GState) (h : emitAll c order {} = .ok st)
+    (hns : noSelfRef c.g order [] = true) : liveIn st.program = [] :=
+  (emit_closed_of_noSelfRef c order st h hns).1
+
+/-- **visitOrder_noSelfRef**: the generator's traversal of a well-formed graph never mentions a nested graph while it is
+open, and closes every graph it opens. -/
+theorem visitOrder_noSelfRef (g : Graph) (hwf : g.WF = true) (order : List Visit) (h : visitOrder g = .ok order) :
+    noSelfRef g order [] = true ∧ pendAfter order [] = [] := visitOrder_noSelfRef_of_wf g hwf order h
+
+/-- The program `compile` emits for a well-formed graph is closed (including the statement that binds the compiled object). -/
+theorem compile_closed (cfg : UCfg) (fc : FCfg) (g : Graph) (comp : Compiled) (hwf : g.WF = true)
+    (h : compile cfg fc g = .ok comp) : liveIn comp.st.program = [] := by
+  unfold compile at h
+  simp only [bind, Except.bind] at h
+  cases hs : getScopes g g.fuel with
+  | error err => simp [hs] at h
+  | ok scopes =>
+  simp only [hs] at h
+  cases ho : visitOrder g with
+  | error err => simp [ho] at h
+  | ok order =>
+  simp only [ho] at h
+  cases he : emitAll { g := g, cfg := cfg, counts := (usageRec g cfg g.fuel g.top {}).counts, scopes := scopes } order {} with
+  | error err => simp [he] at h
+  | ok st =>
+  simp only [he] at h
+  cases hc : convTop st.cache g.top with
+  | error err => simp [hc] at h
+  | ok obj =>
+  simp only [hc] at h
+  obtain ⟨hns, hpend⟩ := visitOrder_noSelfRef g hwf order ho
+  obtain ⟨hcl0, hCL⟩ := emit_closed_of_noSelfRef _ order st he hns
+  rw [hpend] at hCL
+  have hobj : ∀ v ∈ obj.vars, v ∈ outsOf st.program :=
+    fun v hv => hCL.src (G := g.top.grefsOf) (by simp) v (convTop_vars _ _ _ hc v hv)
+  have key : ∀ st' : GState, (st' = st ∨ st'.program = st.program ++ [.assign st.vars.length obj false]) →
+      liveIn st'.program = [] := by
+    intro st' hst
+    rcases hst with rfl | hp
+    · exact hcl0
+    · apply List.eq_nil_iff_forall_not_mem.2
+      intro v hv
+      rw [hp] at hv
+      rcases liveIn_append_cases _ _ v hv with h1 | ⟨h1, h2⟩
+      · rw [hcl0] at h1; simp at h1
+      · simp only [liveIn, Stmt.reads, List.filter_nil, List.append_nil] at h1
+        exact h2 (hobj v h1)
+  have fin : ∀ (st' : GState) (cond : Prop) [Decidable cond] (mk : Compiled),
+      mk.st = st' → (st' = st ∨ st'.program = st.program ++ [.assign st.vars.length obj false]) →
+      (if cond then (throw "RecursionError: Block.to_code" : Except String Unit) >>= fun _ => pure mk else pure mk) = .ok comp →
+      liveIn comp.st.program = [] := by
+    intro st' cond _ mk h1 h3 h4
+    split at h4
+    · simp [throw, throwThe, MonadExceptOf.throw, bind, Except.bind] at h4
+    · simp only [pure, Except.pure, Except.ok.injEq] at h4
+      subst h4
+      rw [h1]
+      exact key st' h3
+  split at h
+  · exact fin _ _ _ rfl (Or.inl rfl) h
+  · cases hb : fc.bindResult with
+    | false =>
+      simp only [hb, Bool.false_eq_true, if_false] at h
+      exact fin _ _ _ rfl (Or.inl rfl) h
+    | true =>
+      simp only [hb, if_true] at h
+      refine fin _ _ _ rfl (Or.inr ?_) h
+      rw [program_push]
+      rfl
+
+/-- **compile_correct_wf** — the universal statement: for *every* graph `g` that satisfies the decidable well-formedness
+predicate `Graph.WF` (origins consistent, applications in topological order, nested-graph outputs mention no graph) and
+for all switches, if `compile` succeeds then the reference evaluation of `g` along the generator's traversal succeeds,
+and executing the emitted statements from the entry environment yields the same event trace and the same result.
+No per-graph premise is left (the driver's verdicts `ref_ok`, `same_trace`, `same_ret`, `closed_prog`, `nodup_order`
+are consequences of `wf_graph`). -/
+theorem compile_correct_wf (cfg : UCfg) (fc : FCfg) (g : Graph) (comp : Compiled) (hwf : g.WF = true)
+    (h : compile cfg fc g = .ok comp) :
+    ∃ r, evalGraph g cfg.unaryParens comp.order = .ok r ∧
+      r.trace = (execBlock { env := unbound } comp.st.program).trace ∧
+      r.ret = (execBlock { env := unbound } comp.st.program).ret :=
+  compile_correct_compiled cfg fc g comp h (compile_closed cfg fc g comp hwf h)
+
+/-- `compile_correct_wf` lifted through the name groups `compile` computed; the only per-graph premise left is `fuseSafe`
+of that renaming on the emitted program. -/
+theorem compile_correct_wf_fused (cfg : UCfg) (fc : FCfg) (g : Graph) (comp : Compiled) (hwf : g.WF = true)
+    (h : compile cfg fc g = .ok comp)
+    (hsafe : fuseSafe (fun v => comp.grp[v]?.getD v) comp.st.program = true) (env' : Env) :
+    ∃ r, evalGraph g cfg.unaryParens comp.order = .ok r ∧
+      r.trace = (execBlock { env := env' } (comp.st.program.map (Stmt.rename (fun v => comp.grp[v]?.getD v)))).trace ∧
+      r.ret = (execBlock { env := env' } (comp.st.program.map (Stmt.rename (fun v => comp.grp[v]?.getD v)))).ret :=
+  compile_correct_compiled_fused cfg fc g comp h (compile_closed cfg fc g comp hwf h) hsafe env'
+
 /-! ### Non-vacuity -/
 
 /-- `a = f(a); a = g(a); return a`: three variables share one name, the block is safe, and the theorem applies. -/
@@ -188,5 +481,54 @@ example :
 example : (match compile UCfg.pinned ⟨true, true, false⟩ d6Graph with
     | .ok c => some (c.order, c.grp, fuseSafe (fun v => c.grp[v]?.getD v) c.st.program)
     | .error _ => none) = some ([.enter 0, .app 0, .exit 0], [0, 1], true) := by decide
+
+/-- `import numpy as np; a = np.zeros(3); np.fill(a, 1)` with result `a`: a graph without nested sub-graphs that contains an
+in-place call whose result aliases `a`. -/
+def flatGraph : Graph :=
+  { apps := [.import_ "numpy" none (some "np") 0, .getattr (.var 0) "zeros" 1, .call (.var 1) [.lit "3"] [] [] 2,
+             .getattr (.var 0) "fill" 3, .callInplace (.var 2) (.var 3) [.var 2, .lit "1"] [] [] 4],
+    origin := [some 0, some 1, some 2, some 3, some 4],
+    graphs := [],
+    top := .var 4 }
+
+/-- The context `compile` builds for a graph. -/
+def ctxOf (cfg : UCfg) (g : Graph) : Option Ctx :=
+  match getScopes g g.fuel with
+  | .ok scopes => some { g, cfg, counts := (usageRec g cfg g.fuel g.top {}).counts, scopes }
+  | .error _ => none
+
+/-- Hypotheses of `compile_correct_flat` on `flatGraph`: the traversal has five applications, `emitAll` succeeds and
+emits three statements (one of them the in-place call). -/
+example : (match ctxOf fixedUCfg flatGraph, visitOrder flatGraph with
+    | some c, .ok order => (match emitAll c order {} with
+      | .ok st => some (order.all Visit.isApp, order.length, st.program.length, (execBlock { env := unbound } st.program).trace.length)
+      | .error _ => none)
+    | _, _ => none) = some (true, 5, 3, 2) := by decide
+
+/-- Hypotheses of `compile_correct` / `compile_correct_compiled(_fused)` on the nested D6 graph and on `flatGraph`:
+`compile` succeeds, the traversal is bracketed, the program is closed and the generator's name groups are `fuseSafe`. -/
+example : (match compile UCfg.pinned ⟨true, true, false⟩ d6Graph with
+    | .ok c => some (matched c.order [], liveIn c.st.program, fuseSafe (fun v => c.grp[v]?.getD v) c.st.program, c.st.program.length)
+    | .error _ => none) = some (true, [], true, 3) := by decide
+
+example : (match compile fixedUCfg ⟨true, true, true⟩ flatGraph with
+    | .ok c => some (matched c.order [], liveIn c.st.program, fuseSafe (fun v => c.grp[v]?.getD v) c.st.program, c.st.program.length)
+    | .error _ => none) = some (true, [], true, 3) := by decide
+
+/-- The premise `liveIn … = []` is not vacuous either way: a program that reads a variable no statement has bound
+is rejected. -/
+example : liveIn [.return_ (.var 0), .def_ 0 [] 0 0] = [0] := by decide
+
+/-- Both example graphs are well-formed (premise of `visitOrder_nodup`), and a graph that is consumed by its own output is not. -/
+example : d6Graph.WF = true ∧ flatGraph.WF = true := by decide
+
+example : ({ apps := [.call (.lit "f") [.gref 0] [] [] 0], origin := [some 0],
+             graphs := [{ inputs := [], output := .var 0, name := none }], top := .var 0 } : Graph).WF = false := by decide
+
+/-- Hypotheses of `emit_closed`/`compile_correct_wf` on the nested D6 graph: well-formed, `compile` succeeds, and the
+traversal mentions no open graph. -/
+example : d6Graph.WF = true ∧ (match compile fixedUCfg ⟨true, true, true⟩ d6Graph with
+    | .ok c => some (noSelfRef d6Graph c.order [], pendAfter c.order [], c.st.program.length)
+    | .error _ => none) = some (true, [], 4) := by decide
 
 end Einx.Compile
